@@ -2290,3 +2290,46 @@ def check_delayed_call(ctx, mod, heap_rules=True):
     return Elem
 
 
+
+
+# =========================================================================== who-may-mutate through the public API
+def intra_class_calls(cls: ast.ClassDef) -> Dict[str, set]:
+    """method name -> names of the methods of the same class it calls as ``self.m(...)`` or hands out as
+    ``self.m`` (a bound method passed around may be called by whoever receives it); nested functions and
+    lambdas are attributed to the enclosing method."""
+    ms = methods(cls)
+    out: Dict[str, set] = {}
+    for name, f in ms.items():
+        tgt = set()
+        for n in ast.walk(f):
+            if isinstance(n, ast.Attribute) and isinstance(n.value, ast.Name) and n.value.id == "self" and n.attr in ms \
+                    and isinstance(n.ctx, ast.Load):
+                tgt.add(n.attr)
+        out[name] = tgt
+    return out
+
+
+def public_api_effects(mod, cls: ast.ClassDef, attrs, roots, stop):
+    """For every root method: the mutations of ``self.<attrs>`` it can reach through the intra-class call graph
+    without passing through a ``stop`` method.  -> [(root, chain of method names, Access)]"""
+    graph = intra_class_calls(cls)
+    acc = class_accesses(mod, cls, set(attrs), receivers={"self"})
+    by_method: Dict[str, list] = {}
+    for a in acc:
+        by_method.setdefault(a.func.split(".")[1], []).append(a)
+    res = []
+    for root in roots:
+        if root not in graph:
+            continue
+        seen = {root: [root]}
+        todo = [root]
+        while todo:
+            m = todo.pop()
+            for a in by_method.get(m, []):
+                res.append((root, seen[m], a))
+            for t in sorted(graph.get(m, ())):
+                if t in seen or t in stop:
+                    continue
+                seen[t] = seen[m] + [t]
+                todo.append(t)
+    return res
